@@ -12,14 +12,14 @@ TREE = json.load(open(os.path.join(SPEC, "tree_model.json")))
 
 
 def cfg(writers, closers=None, qsize=2, until=True, serve="pre", reads=0, maxfaults=0,
-        maxpolls=10, nsenders=None, fixclosed=None, fixdrain=None):
+        maxpolls=10, nsenders=None, fixclosed=None, fixdrain=None, pcancel=False):
     """writers: {"W1": [("W1","bg"), ...]}; closers: {"C1": "e1"}"""
     closers = closers or {}
     nops = sum(len(v) for v in writers.values())
     return {
         "writers": {w: [list(o) for o in ops] for w, ops in writers.items()},
         "closers": dict(closers), "qsize": qsize, "until": until, "serve": serve, "reads": reads,
-        "maxfaults": maxfaults, "maxpolls": maxpolls,
+        "maxfaults": maxfaults, "maxpolls": maxpolls, "pcancel": pcancel,
         "nsenders": nsenders if nsenders is not None else nops + 1,
         "fixclosed": TREE["FixClosed"] if fixclosed is None else fixclosed,
         "fixdrain": TREE["FixDrain"] if fixdrain is None else fixdrain,
@@ -45,7 +45,7 @@ def tla_consts(c, maxpolls=None):
         "QSize": c["qsize"], "Until": c["until"],
         "MaxPolls": c["maxpolls"] if maxpolls is None else maxpolls,
         "MaxFaults": c["maxfaults"], "Serve": c["serve"], "Reads": c["reads"],
-        "FixClosed": c["fixclosed"], "FixDrain": c["fixdrain"],
+        "FixClosed": c["fixclosed"], "FixDrain": c["fixdrain"], "PCancel": c.get("pcancel", False),
     }
 
 
@@ -110,12 +110,15 @@ def node_sig(label):
     return (tuple(sorted(pcs.items())), wr)
 
 
-LABEL_KINDS = {"Step": "step", "Fault": "fault", "CtxCancel": "cancel"}
+LABEL_KINDS = {"Step": "step", "Fault": "fault", "CtxCancel": "cancel", "ParentCancel": "pcancel"}
 
 
 def label_move(lab):
     m = re.match(r'(\w+)\("?([^")]*)"?\)', lab)
     if not m:
+        m2 = re.match(r'\s*(\w+)\s*$', lab)
+        if m2:
+            return [LABEL_KINDS.get(m2.group(1), m2.group(1)), ""]
         return None
     return [LABEL_KINDS.get(m.group(1), m.group(1)), m.group(2)]
 
@@ -140,7 +143,7 @@ def walk_events(init, adj, sig, events):
     walked = []
     for e in events:
         a = e["a"]
-        kind = "cancel" if a == "env.cancel" else ("fault" if a.endswith("!fail") else "step")
+        kind = "cancel" if a == "env.cancel" else "pcancel" if a == "env.pcancel" else ("fault" if a.endswith("!fail") else "step")
         cands = [(lab, v) for lab, v in adj.get(cur, []) if label_move(lab) == [kind, e["p"]]]
         if not cands:
             return walked, False
